@@ -85,4 +85,37 @@ theorem Rel.core_of_not_lag {m : Mach} {inp : Str} {t : Tok} {rest : Str} (h : R
     · rw [hl] at h3; simp at h3
     · rw [hl] at h4; simp at h4
 
+/-! ## the model's invariant only looks at the control registers -/
+
+theorem tinv_congr {m m' : Mach} (h : TInv m) (h1 : m'.state = m.state) (h2 : m'.charRef = m.charRef)
+    (h3 : m'.tempBuf = m.tempBuf) (h4 : m'.reconsume = m.reconsume) (h5 : m'.ignoreLf = m.ignoreLf)
+    (h6 : m'.currentChar = m.currentChar) : TInv m' := by
+  have hstash : stash m' = stash m := stash_congr h1 h3 h2
+  refine ⟨⟨⟨?_, ?_⟩, ?_, ?_, ?_, ?_, ?_, ?_⟩, ?_⟩
+  · intro cr hc; rw [h1]; exact h.linv.safe.crState cr (by rw [← h2]; exact hc)
+  · intro cr hc; exact h.linv.safe.crRegs cr (by rw [← h2]; exact hc)
+  · intro hs; have := h.linv.eatOk (by rw [← h1]; exact hs)
+    intro hil; rw [h3]; exact this (by rw [← h5]; exact hil)
+  · intro a b c; rw [h3]; exact h.linv.nr (by rw [← h1]; exact a) (by rw [← h1]; exact b) (by rw [← h1]; exact c)
+  · intro hs; rw [h4]; exact h.linv.peekNoRecon (by rw [← h1]; exact hs)
+  · intro a b; rw [h6]; exact h.linv.ri (by rw [← h4]; exact a) (by rw [← h5]; exact b)
+  · rw [hstash]; exact h.linv.stashOk
+  · intro cr hc
+    have := h.linv.cr cr (by rw [← h2]; exact hc)
+    rw [h5, h4]; exact this
+  · intro cr hc; exact h.crt cr (by rw [← h2]; exact hc)
+
+theorem tinv_absorb {m : Mach} (h : TInv m) (lag : Str) : TInv (absorb m lag) := by
+  unfold absorb
+  split
+  · exact h
+  · split
+    · exact tinv_congr h rfl rfl rfl rfl rfl rfl
+    · split
+      · exact tinv_congr h rfl rfl rfl rfl rfl rfl
+      · exact tinv_congr h rfl rfl rfl rfl rfl rfl
+
+theorem tinv_setAtEof {m : Mach} (h : TInv m) (b : Bool) : TInv (m.setAtEof b) :=
+  tinv_congr h rfl rfl rfl rfl rfl rfl
+
 end H5V.Lemmas.HtmlTokSpec
